@@ -227,17 +227,34 @@ theorem match_flags (cfg : Table) (env : Env) (st : St) (fin : Option Bool) :
     simp [critHead, lower, lowerByte, sAll, sCanonical, sFinal, sLocalnetwork, chBang]
   cases fin <;> simp
 
-/-- **match_semantics (Host).**  `Host p1 p2 …` activates the block iff some non-negated pattern matches
-    the original host name and no `!`-pattern does. -/
+/-- **match_semantics (Host).**  `Host p1 p2 …` activates the block iff some non-negated argument matches the
+    original host name and no `!`-argument does; each whitespace-separated argument is ONE pattern (a comma is an
+    ordinary character, as in OpenSSH — the code used to split arguments at commas). -/
 theorem host_semantics (cfg : Table) (env : Env) (rec : St → Bytes → Except Err St) (st : St)
     (opt : Bytes) (args : List Bytes) :
     ∃ st', runHandler cfg env rec st opt .matchHost args = .ok (st', []) ∧
       st'.opts = st.opts ∧ st'.log = st.log ∧
       (st'.matching = true ↔
-        (∃ p ∈ patPos (joinWith [chComma] args), wildMatch p env.origHost = true) ∧
-        (∀ p ∈ patNeg (joinWith [chComma] args), wildMatch p env.origHost = false)) := by
+        (∃ p ∈ args, p.head? ≠ some chBang ∧ wildMatch p env.origHost = true) ∧
+        (∀ p ∈ args, p.head? = some chBang → wildMatch p.tail env.origHost = false)) := by
   refine ⟨_, rfl, rfl, rfl, ?_⟩
-  simp [patListMatches, List.any_eq_true]
+  simp only [patListMatchesL, Bool.and_eq_true, List.any_eq_true, List.mem_filter, decide_eq_true_eq,
+    Bool.not_eq_true', List.any_eq_false, List.mem_map]
+  constructor
+  · rintro ⟨⟨p, ⟨hp, hb⟩, hm⟩, hneg⟩
+    refine ⟨⟨p, hp, hb, hm⟩, ?_⟩
+    intro q hq hqb
+    have := hneg q.tail ⟨q, ⟨hq, hqb⟩, rfl⟩
+    simpa using this
+  · rintro ⟨⟨p, hp, hb, hm⟩, hneg⟩
+    refine ⟨⟨p, ⟨hp, hb⟩, hm⟩, ?_⟩
+    rintro x ⟨q, ⟨hq, hqb⟩, rfl⟩
+    simpa using hneg q hq hqb
+
+/-- a comma inside a `Host` argument does not separate patterns -/
+theorem host_comma_is_literal :
+    patListMatchesL [[97, 49, 44, 98, 49]] [97, 49] = false ∧          -- `Host a1,b1` does not match a1
+    patListMatchesL [[97, 49, 44, 98, 49]] [97, 49, 44, 98, 49] = true := by decide
 
 /-- a negated pattern excludes: the block state is false whenever a `!`-pattern matches -/
 theorem negated_pattern_excludes (pats value p : Bytes) (hp : p ∈ patNeg pats)
